@@ -653,6 +653,11 @@ class Circuit(Function):
                     gates_for_block.add(new_label)
             else:
                 if right_connect:
+                    for operand in cur_gate.operands:
+                        self._add_user(
+                            old_to_new_names[operand],
+                            old_to_new_names[cur_gate.label],
+                        )
                     self._gates[old_to_new_names[cur_gate.label]] = gate.Gate(
                         label=old_to_new_names[cur_gate.label],
                         gate_type=cur_gate.gate_type,
